@@ -533,7 +533,9 @@ def rule_start_reset(prog, res, rule="R-START-RESET"):
 def rule_sink_error_path(prog, res, rule="R-SINK-ERROR"):
     f = prog.func("video_sink_thread")
     res.touched(f)
-    appends = [(b.id, i, s) for b, i, s in f.all_stmts() if calls(s, "storage_append")]
+    def appends_(x):
+        return bool(calls(x, "storage_append")) or paths.stmt_reaches(prog, f, x, {"storage_append"})
+    appends = [(b.id, i, s) for b, i, s in f.all_stmts() if appends_(s)]
     if len(appends) < 2:
         raise AnalysisBroken("video_sink_thread: expected the streaming and the flush storage_append")
     for bid, i, s in appends:
@@ -550,7 +552,7 @@ def rule_sink_error_path(prog, res, rule="R-SINK-ERROR"):
         if fail_t is None:
             raise AnalysisBroken("video_sink_thread: failure edge of storage_append not found")
         line = s.get("line")
-        later = paths.reachable_after(f, (fail_t, -1), lambda x: bool(calls(x, "storage_append")))
+        later = paths.reachable_after(f, (fail_t, -1), appends_)
         inst = "video_sink_thread: nothing appended after a failed append (line %s)" % line
         if not later:
             res.oblige(rule, inst, True, "no storage_append reachable from the failure edge", f.loc(s))
